@@ -205,6 +205,14 @@ class Names(Harness):
                 raise Violation("lowering-by-name-ambiguous", f"{len(job.tasks)} tasks for {len(nodes)} nodes")
             if [(list(n.payload[1]), dict(n.payload[2])) for n in (n1, n2)] != pay_before:
                 raise Violation("lowering-rewrote-node-payloads", f"{pay_before} -> {[n.payload[1:] for n in (n1, n2)]}")
+            # one action that holds the same computation twice (two node objects, as a join of two sub-expressions built separately does)
+            try:
+                single = ew.Cascade.from_actions([fluent.Action(xr.DataArray(np.array([n1, n1b, n2], dtype=object), dims=["d"]))])
+                snodes = list(single._graph.nodes())
+            except Exception as e:
+                raise Violation(f"single-action-union-raised-{type(e).__name__}", str(e)[:200])
+            if len({n.name for n in snodes}) != len(snodes) or len(snodes) != want:
+                raise Violation("single-action-not-deduplicated", f"{len(snodes)} nodes, {len({n.name for n in snodes})} names, expected {want}")
             # in-place union with a separately built copy of the second program (equal names, distinct node objects)
             srcs2 = [fluent.Node(fluent.Payload(s0), name="s0"), fluent.Node(fluent.Payload(s1), name="s1")]
             fn2 = CALLABLES[params["c2"]][1]
